@@ -7,6 +7,7 @@ and for the functions not yet under contract, (b) cross-checks the proved clause
 import itertools
 
 from .common import Clause, run_parallel
+from . import c16_gen
 
 HTML_ALPHA = '<>/a "=!-?s['
 CSS_ALPHA = 'a{}:;"\\ (/*'
@@ -18,13 +19,27 @@ def _wf(r, n):
 
 
 def check_html(src):
+    return _check_html(src, None, (None, {'xml': True}))
+
+
+def check_html_special(src, special):
+    """same oracle as check_html, with the `special` option dimension: `special` (JSON: None or a dict
+    tag name -> None | list of `type` values) is handed to scan() directly and to the three matchers
+    through the options ({'special': ...}, html and xml mode); None = scan() without special elements and
+    the matchers with their default options"""
+    if special is None:
+        return _check_html(src, None, (None, {'xml': True}))
+    return _check_html(src, special, ({'special': special}, {'special': special, 'xml': True}))
+
+
+def _check_html(src, special, opts):
     from emmet.html_matcher import match, balanced_outward, balanced_inward
     from emmet.html_matcher.scan import scan
     from emmet.html_matcher.attributes import attributes
     from emmet.html_matcher.utils import ElementType
     n = len(src)
     tags = []
-    scan(src, lambda name, t, s, e: tags.append((name, t, s, e)))
+    scan(src, lambda name, t, s, e: tags.append((name, t, s, e)), special)
     last = 0
     for name, t, s, e in tags:
         if not (0 <= s <= e <= n):
@@ -43,7 +58,7 @@ def check_html(src):
         if a.value is not None:
             if not (0 <= a.value_start <= a.value_end <= n) or src[a.value_start:a.value_end] != a.value:
                 return 'attributes(): bad value range %r' % (a.to_json(),)
-    for opt in (None, {'xml': True}):
+    for opt in opts:
         for pos in range(-1, n + 2):
             m = match(src, pos, opt)
             out = balanced_outward(src, pos, opt)
@@ -159,4 +174,26 @@ def run(tier, seed):
                 'a case is one stylesheet (all positions checked inside); distinct by document', exhaustive=True)
     run_parallel(c4, 'bounded.c16', 'check_css', token_docs(CSS_TOKENS, tn), chunk=800)
     c4.done()
-    return [c1, c2, c3, c4]
+    # opening tags with attributes whose values are themselves markup, on special (style / script / user
+    # `special` option), ordinary and empty elements; the `special` table is a dimension of the case and is
+    # handed to scan() directly as well as to the matchers (see c16_gen.py)
+    c5 = Clause('html-special-attributed', 'B',
+                'prefix + <name [type] attr=markup> + body + closing tag + suffix; kind of element x attribute form x '
+                'markup value x body x closing tag (present / missing / mismatched), each with its special table',
+                '%s, one of 9 (prefix, suffix) contexts per case in rotation, coinciding documents once; '
+                'positions -1..len+1, html and xml mode' % (
+                    '7 kinds x 4 attribute forms x 7 values x 3 bodies x 3 closings' if tier == 'quick'
+                    else '11 kinds x 7 attribute forms x 14 values x 6 bodies x 3 closings'),
+                'a case is one (document, special table) pair (scan with that table, all positions, both modes inside); '
+                'distinct by pair', exhaustive=True)
+    run_parallel(c5, 'bounded.c16', 'check_html_special', c16_gen.special_docs(tier), chunk=40)
+    c5.done()
+    rn = 300 if tier == 'quick' else 6000
+    c6 = Clause('html-random-attributed-mutated', 'B',
+                'seeded random documents of 1-3 elements with attributes holding markup (nested), 0-2 one-character '
+                'mutations, random special table',
+                '%d documents of length <= 64, seed %d; positions -1..len+1, html and xml mode' % (rn, seed),
+                'a case is one (document, special table) pair; distinct by pair', exhaustive=False)
+    run_parallel(c6, 'bounded.c16', 'check_html_special', c16_gen.random_docs(seed, rn), chunk=20)
+    c6.done()
+    return [c1, c2, c3, c4, c5, c6]
